@@ -466,6 +466,7 @@ def _main(mod, prop, args, t_start):
             total.add(part, doc["case"], res)
             n_regress += 1
 
+    floor_problems = []
     for part in parts:
         n = int(max(1, round(part.budget.get(tier, part.budget.get("quick", 100)) * args.scale)))
         nsh = part.shards.get(tier, 1)
@@ -496,7 +497,7 @@ def _main(mod, prop, args, t_start):
         }
         floor = max(2, int(part.min_nontrivial.get(tier, 2) * min(1.0, args.scale)))
         if len(st.nontrivial) < floor and not st.budget_exhausted:
-            raise HarnessError(
+            floor_problems.append(
                 f"part {part.name}: only {len(st.nontrivial)} non-trivial cases (< {floor}); generator is broken"
             )
         total.merge(st)
@@ -525,6 +526,9 @@ def _main(mod, prop, args, t_start):
     for bucket, ent, path in violations:
         print(f"  bucket={bucket} count={ent['count']} {ent['message'][:400]}")
         print(f"VIOLATION property={prop} replay={path}")
+    if floor_problems and not violations:
+        # a vacuous run is a harness error - but never hides violations that were found
+        raise HarnessError("; ".join(floor_problems))
 
     # ---- evidence
     wall = time.time() - t_start
